@@ -242,6 +242,8 @@ func (e *Exec) RunSteps() {
 				idx = uint64(n + 1000 + st.RbArg%3)
 			case "index":
 				idx = uint64(st.RbArg)
+			case "latest-change":
+				idx = e.latestLiveChange()
 			}
 			if idx == 0 {
 				continue
@@ -449,4 +451,33 @@ func ErrClass(err error) string {
 		return "OK"
 	}
 	return status.Code(err).String()
+}
+
+// latestLiveChange is the runner's own (approximate) idea of the newest change that was answered OK and has not
+// been rolled back by a rollback that was answered OK; it only steers the generator towards deep rollback chains
+func (e *Exec) latestLiveChange() uint64 {
+	rolled := map[uint64]bool{}
+	var best uint64
+	for _, c := range e.Calls {
+		if c.Returned && c.Err == nil && c.Kind == "rollback" {
+			rolled[c.RbIndex] = true
+		}
+	}
+	for _, c := range e.Calls {
+		if c.Kind != "set" || !c.Returned || c.Err != nil {
+			continue
+		}
+		for _, x := range c.Resp.GetExtension() {
+			if r := x.GetRegisteredExt(); r != nil && r.Id == configapi.TransactionInfoExtensionID {
+				ti := &configapi.TransactionInfo{}
+				if ti.Unmarshal(r.Msg) == nil && !rolled[uint64(ti.Index)] && uint64(ti.Index) > best {
+					best = uint64(ti.Index)
+				}
+			}
+		}
+	}
+	if best == 0 {
+		return uint64(e.logLen())
+	}
+	return best
 }
